@@ -52,6 +52,12 @@ CHECKS.update({
             'images and random plans/geometries are searched beyond; the target model records every buffer byte and flash page, so content, '
             'page range, per-byte upload coverage, message size, retry bound and abort behaviour are all checked.',
             'Bootloader target model (page buffers, flash-write semantics, late reply = executed) is my restatement of the protocol.'),
+    'C01': ('fault_enumeration', 'DESIGN.md 3/C01', 'fakeradio',
+            'exhaustive enumeration of per-transmission outcome sequences (3^k, k<=5 quick / 8 thorough) x submission patterns + Hypothesis sequences; lock-step fake dongle with a reference safelink peer model',
+            'Every sequence of {acked, uplink lost, ack lost} up to the bound is enumerated against the real radio stack with the application '
+            'submitting at every possible point of the radio loop (lock-step), random longer histories beyond; exactly-once/in-order in both '
+            'directions, link-error count and safelink negotiation are checked against a reference peer.',
+            'Safelink peer model and dongle status-byte format restated from the firmware protocol; application acts only while the radio thread is parked.'),
 })
 
 ALL = ['C%02d' % i for i in range(1, 21)]
